@@ -222,7 +222,8 @@ def step (c : Cfg) (s : State) : Label → Option State
     if t ≠ 0 ∧ s.tpc t = .idle ∧ s.stopper = none then
       some { s with nextB := s.nextB + 1, cref := upd s.cref s.nextB 1, ccnt := upd s.ccnt s.nextB 0,
                     cfut := upd s.cfut s.nextB 0, cphase := upd s.cphase s.nextB .created,
-                    cowner := upd s.cowner s.nextB t, snap := upd s.snap s.nextB s.enqLog }
+                    cowner := upd s.cowner s.nextB t, orphan := upd s.orphan s.nextB false,
+                    snap := upd s.snap s.nextB s.enqLog }
     else none
   | .qcGet t b =>
     if t ≠ 0 ∧ s.tpc t = .idle ∧ b < s.nextB ∧ s.cowner b = t ∧ s.orphan b = false ∧ s.cphase b = .created ∧ s.stopper = none then
